@@ -81,6 +81,9 @@ def _impl_one(op):
     if kind == "DECSRC":
         _, mode, tname, cc, enc, data, src = op
         return canon.impl_dec(mode, tname, cc, enc, data, source=src)
+    if kind == "OBJ":
+        _, mode, tname, cc, enc, data = op
+        return canon.impl_objects(mode, tname, cc, enc, data)
     if kind == "PRINT":
         _, mode, tname, cc, enc, data = op
         return canon.impl_print(mode, tname, cc, enc, data)
